@@ -942,6 +942,13 @@ pub fn gen_c20_corpus(ctx: &Ctx, out: &str) -> std::io::Result<(u64, u64, u64)> 
         for (k, op) in h.ops.iter().enumerate() {
             if let Op::Frame(m) = op {
                 writeln!(w, "A {}", hex(m))?;
+                // time passes between frames (std builds have a clock, the alloc-only build has none)
+                if r.below(7) == 0 {
+                    writeln!(w, "W {}", *r.pick(&[1_000_000_000u64, 9_000_000_000, 11_000_000_000, 61_000_000_000, 3_600_000_000_000]))?;
+                }
+            }
+            if let Op::Receiver(p, range) = op {
+                writeln!(w, "R {} {} {}", p.0, p.1, range)?;
             }
             if k % 16 == 15 {
                 writeln!(w, "D")?;
